@@ -8,6 +8,7 @@ import (
 	"go/token"
 	"os"
 	"path/filepath"
+	"regexp"
 	"strings"
 
 	"github.com/dave/dst"
@@ -40,7 +41,7 @@ func init() {
 	core.Register(&core.Prop{
 		ID:    "C15",
 		Level: "model_checking",
-		Rule: "for every corpus template: every prefix and suffix, every single-byte insertion and substitution from a 20-byte alphabet at every offset, every token deleted / duplicated / swapped with its neighbour, every pair of token deletions; " +
+		Rule: "for every corpus template: every prefix and suffix (also of the CRLF version of the file), every single-byte insertion and substitution from a 20-byte alphabet at every offset, every token deleted / duplicated / swapped with its neighbour, every pair of token deletions; " +
 			"plus every string of <=5 (quick) / <=6 (thorough) lexemes over a 20-lexeme alphabet; each through decorator.Parse, and (all but the byte-edit and pair inputs) Decorator.ParseFile in 4 parser modes and ParseDir (plain, and through a Decorator with the syntax-based resolver) on a directory holding the input next to a valid file, and Fprint of every tree returned, directly and through a Restorer whose FileSet already holds a file; " +
 			"oracle: no panic escapes; state = distinct input; non-trivial = input rejected by go/parser (error paths)",
 		Assumptions:      []string{"corruptions are single/double edits of corpus files and short lexeme strings"},
@@ -138,6 +139,12 @@ func runC15(ctx *core.Ctx, unit int) {
 			try(src[:i], t.Name+"/prefix", true)
 			try(src[i:], t.Name+"/suffix", true)
 		}
+		// the same file with CRLF line ends, cut everywhere (also between the CR and the LF)
+		crlf := strings.ReplaceAll(src, "\n", "\r\n")
+		for i := 0; i <= len(crlf); i++ {
+			try(crlf[:i], t.Name+"/crlf-prefix", false)
+			try(crlf[i:], t.Name+"/crlf-suffix", false)
+		}
 	case "byte-insert":
 		for i := 0; i <= len(src); i++ {
 			for _, b := range c15Bytes {
@@ -180,7 +187,7 @@ func c15Check(src string, allModes bool) (core.Outcome, bool) {
 		var f *dst.File
 		var err error
 		if p := guard(func() { f, err = parse() }); p != "" {
-			return &core.Outcome{Key: "parse-panic:" + short(p, 120), Desc: fmt.Sprintf("%s panicked: %s\ninput: %q", name, p, src)}
+			return &core.Outcome{Key: "parse-panic:" + c15Key(p), Desc: fmt.Sprintf("%s panicked: %s\ninput: %q", name, p, src)}
 		}
 		if err != nil {
 			rejected = true
@@ -193,11 +200,11 @@ func c15Check(src string, allModes bool) (core.Outcome, bool) {
 		}
 		var buf bytes.Buffer
 		if p := guard(func() { _ = decorator.Fprint(&buf, f) }); p != "" {
-			return &core.Outcome{Key: "print-panic:" + short(p, 120), Desc: fmt.Sprintf("Fprint of the tree returned by %s panicked: %s\ninput: %q", name, p, src)}
+			return &core.Outcome{Key: "print-panic:" + c15Key(p), Desc: fmt.Sprintf("Fprint of the tree returned by %s panicked: %s\ninput: %q", name, p, src)}
 		}
 		// and as a later file of a Restorer's FileSet (what Package.Save does with every file but the first)
 		if p := guard(func() { _, _ = printFileLate(f) }); p != "" {
-			return &core.Outcome{Key: "late-print-panic:" + short(p, 120), Desc: fmt.Sprintf("printing the tree returned by %s through a Restorer whose FileSet already holds a file panicked: %s\ninput: %q", name, p, src)}
+			return &core.Outcome{Key: "late-print-panic:" + c15Key(p), Desc: fmt.Sprintf("printing the tree returned by %s through a Restorer whose FileSet already holds a file panicked: %s\ninput: %q", name, p, src)}
 		}
 		return nil
 	}
@@ -207,7 +214,7 @@ func c15Check(src string, allModes bool) (core.Outcome, bool) {
 	if allModes {
 		// ParseDir: the input as one file of a directory next to a valid sibling
 		if p := guard(func() { c15ParseDir(src) }); p != "" {
-			return core.Outcome{Key: "parsedir-panic:" + short(p, 120), Desc: fmt.Sprintf("decorator.ParseDir panicked on a directory holding this file: %s\ninput: %q", p, src)}, rejected
+			return core.Outcome{Key: "parsedir-panic:" + c15Key(p), Desc: fmt.Sprintf("decorator.ParseDir panicked on a directory holding this file: %s\ninput: %q", p, src)}, rejected
 		}
 		for _, m := range c15Modes {
 			m := m
@@ -220,6 +227,11 @@ func c15Check(src string, allModes bool) (core.Outcome, bool) {
 	}
 	return core.Outcome{OK: true}, rejected
 }
+
+var c15Digits = regexp.MustCompile(`[0-9]+`)
+
+// c15Key groups panics by message with the numbers masked (index values differ from input to input).
+func c15Key(p string) string { return short(c15Digits.ReplaceAllString(p, "N"), 120) }
 
 func c15ParseDir(src string) {
 	dir, err := scratchDir("c15dir")
